@@ -5,6 +5,7 @@ package fsmworld
 import (
 	"fmt"
 	"math/rand/v2"
+	"strings"
 
 	"github.com/hashicorp/consul/internal/verifsim/simkit"
 	"github.com/hashicorp/consul/types"
@@ -46,7 +47,8 @@ type Gen struct {
 // Weights of step families; zero disables (swarm variation).
 type Weights struct {
 	Register, Deregister, KV, Session, Txn, Reap, Advance, Snapshot, Restart, Fault, Ext int
-	KVLockBias                                                                           int // extra weight of lock/unlock among KV verbs
+	KVLockBias                                                                           int  // extra weight of lock/unlock among KV verbs
+	CaseVariants                                                                         bool // service names in varying case (C06)
 	Peer                                                                                 bool
 	Kinds                                                                                bool
 	InPlaceKind                                                                          bool
@@ -130,6 +132,10 @@ func (g *Gen) fillService(s *Step) {
 	s.Svc = g.pick(g.U.Services)
 	if simkit.Chance(g.R, 40) {
 		s.SvcID = s.Svc + g.pick([]string{"1", "2"})
+	}
+	if g.W.CaseVariants && simkit.Chance(g.R, 12) {
+		// the catalog matches service names case-insensitively: "Web" and "web" are one service to a reader
+		s.Svc = strings.ToUpper(s.Svc[:1]) + s.Svc[1:]
 	}
 	s.Port = 8000 + g.R.IntN(3)
 	if simkit.Chance(g.R, 8) {
@@ -282,6 +288,10 @@ func (g *Gen) SessionCreate() Step {
 	}
 	if simkit.Chance(g.R, 20) {
 		s.SvcChks = []string{g.pick(g.U.Checks) + "-" + g.pick(g.U.Services)}
+	}
+	if simkit.Chance(g.R, 15) {
+		// the legacy Checks field, which the API accepts next to NodeChecks
+		s.List = []string{g.pick(g.U.Checks)}
 	}
 	return s
 }
